@@ -294,7 +294,35 @@ func (c *Ctx) jcsRules() {
 		// format selection
 		okFmt := false
 		detail := ""
-		forEachInstr(ntj, func(in ssa.Instruction) {
+		// the function that selects the format: NumberToJSON, or an unexported helper it hands the magnitude to (every
+		// call passes x or -x; the magnitude is then the helper's parameter)
+		host, isMag := ntj, func(p string) bool { return strings.HasPrefix(p, "phi($0|-$0)") }
+		hasSel := func(f *ssa.Function) bool {
+			found := false
+			forEachInstr(f, func(in ssa.Instruction) {
+				if phi, ok := in.(*ssa.Phi); ok && c.Path(phi, nil) == "phi(101|102)" {
+					found = true
+				}
+			})
+			return found
+		}
+		if !hasSel(ntj) {
+			for _, g := range c.helpersOf(ntj, 1) {
+				if !hasSel(g) || len(g.Params) != 1 {
+					continue
+				}
+				okArgs := true
+				for _, cl := range callsTo(ntj, g) {
+					if a := c.Path(cl.Call.Args[0], nil); a != "$0" && a != "-$0" {
+						okArgs = false
+					}
+				}
+				if okArgs {
+					host, isMag = g, func(p string) bool { return p == "$0" }
+				}
+			}
+		}
+		forEachInstr(host, func(in ssa.Instruction) {
 			phi, ok := in.(*ssa.Phi)
 			if !ok || c.Path(phi, nil) != "phi(101|102)" {
 				return
@@ -316,7 +344,7 @@ func (c *Ctx) jcsRules() {
 							continue
 						}
 						k, isK := bo.Y.(*ssa.Const)
-						if !isK || !strings.HasPrefix(c.Path(bo.X, nil), "phi($0|-$0)") {
+						if !isK || !isMag(c.Path(bo.X, nil)) {
 							continue
 						}
 						f64, _ := constant.Float64Val(k.Value)
@@ -331,11 +359,33 @@ func (c *Ctx) jcsRules() {
 		c.Check("C05.K2", "fixed-notation-range", okFmt, ntj.Pos(), "format 'f' is selected exactly under: "+detail+" (expected |x| < 1e21 ∧ |x| ≥ 1e-6)")
 		// sign handled separately, result = sign + digits
 		okSign := false
+		neg, pos := false, false
 		for _, r := range successReturns(ntj) {
-			if strings.HasPrefix(c.Path(r.Results[0], nil), `(phi(""|"-") + `) {
+			p := c.Path(r.Results[0], nil)
+			if strings.HasPrefix(p, `(phi(""|"-") + `) {
 				okSign = true
 			}
+			// or two exits: "-" + format(-x) where x < 0, format(x) otherwise
+			if host != ntj {
+				hn := short(host.String())
+				conds := c.condsOf(r.Block())
+				has := func(w string) bool {
+					for _, cnd := range conds {
+						if cnd == w {
+							return true
+						}
+					}
+					return false
+				}
+				if p == `("-" + `+hn+`(-$0))` && has("($0 < 0)=true") {
+					neg = true
+				}
+				if p == hn+"($0)" && has("(0 <= $0)=true") {
+					pos = true
+				}
+			}
 		}
+		okSign = okSign || (neg && pos)
 		c.Check("C05.K2", "sign-prefix", okSign, ntj.Pos(), "the result is the sign followed by the formatted magnitude")
 	}
 	c.Min("C05.K2", 4)
@@ -429,6 +479,28 @@ func (c *Ctx) jcsRules() {
 					}
 				}
 			})
+			// or the library's lexicographic comparison of the two []uint16 keys (unsigned code units, shorter prefix first)
+			var libCmp *ssa.Call
+			forEachInstr(cmpFn, func(in ssa.Instruction) {
+				cl, ok := in.(*ssa.Call)
+				if !ok || cl.Call.StaticCallee() == nil || len(cl.Call.Args) != 2 {
+					return
+				}
+				o := cl.Call.StaticCallee().Origin()
+				if o == nil || pkgPathOf(o) != "slices" || o.Name() != "Compare" {
+					return
+				}
+				if c.Path(cl.Call.Args[0], nil) == "$0" && strings.HasSuffix(c.Path(cl.Call.Args[1], nil), ".sortKey") {
+					libCmp = cl
+				}
+			})
+			if libCmp != nil {
+				for _, r := range *libCmp.Referrers() {
+					if lt, isB := r.(*ssa.BinOp); isB && lt.Op == token.LSS && lt.X == ssa.Value(libCmp) && c.Path(lt.Y, nil) == "0" {
+						precedesOnTrue(lt)
+					}
+				}
+			}
 			c.Check("C05.P1", "ordering-by-code-unit-difference", okDiff, cmpFn.Pos(), "new key precedes when its first differing UTF-16 code unit is smaller")
 			// duplicate keys raise an error
 			okDup := false
@@ -447,6 +519,19 @@ func (c *Ctx) jcsRules() {
 					}
 				}
 			})
+			if libCmp != nil {
+				for _, r := range *libCmp.Referrers() {
+					if eq, isB := r.(*ssa.BinOp); isB && eq.Op == token.EQL && eq.X == ssa.Value(libCmp) && c.Path(eq.Y, nil) == "0" {
+						for _, e := range boolEdges(eq, true) {
+							for _, i2 := range e.to.Instrs {
+								if cl, isC := i2.(*ssa.Call); isC && cl.Call.StaticCallee() == nil && len(cl.Call.Args) == 1 {
+									okDup = true
+								}
+							}
+						}
+					}
+				}
+			}
 			c.Check("C05.P1", "duplicate-key-error", okDup, cmpFn.Pos(), "keys equal in every code unit and in length raise an error")
 		}
 		// insertion before the first element the new key precedes; otherwise append
